@@ -2,6 +2,7 @@ package level
 
 import (
 	"io"
+	"math/bits"
 	"strconv"
 
 	"github.com/Tnze/go-mc/level/biome"
@@ -36,6 +37,11 @@ func NewStatesPaletteContainer(length int, defaultValue BlocksState) *PaletteCon
 func NewStatesPaletteContainerWithData(length int, data []uint64, pat []BlocksState) *PaletteContainer[BlocksState] {
 	var p palette[BlocksState]
 	n := calcBitsPerValue(length, len(data))
+	minBits := block.BitsPerBlock // without a palette the data holds global ids
+	if len(pat) > 0 {
+		minBits = bits.Len(uint(len(pat) - 1)) // saved data always indexes the saved palette
+	}
+	n = narrowBitsPerValue(n, length, len(data), minBits)
 	switch n {
 	case 0:
 		p = &singleValuePalette[BlocksState]{pat[0]}
@@ -56,6 +62,11 @@ func NewStatesPaletteContainerWithData(length int, data []uint64, pat []BlocksSt
 			bits:   n,
 		}
 	default:
+		if len(pat) > 0 {
+			// more states than the largest in-memory palette: resolve the indices to global ids
+			data = resolvePaletteIndices(n, block.BitsPerBlock, length, data, pat)
+		}
+		n = block.BitsPerBlock
 		p = &globalPalette[BlocksState]{}
 	}
 	return &PaletteContainer[BlocksState]{
@@ -78,6 +89,11 @@ func NewBiomesPaletteContainer(length int, defaultValue BiomesState) *PaletteCon
 func NewBiomesPaletteContainerWithData(length int, data []uint64, pat []BiomesState) *PaletteContainer[BiomesState] {
 	var p palette[BiomesState]
 	n := calcBitsPerValue(length, len(data))
+	minBits := biome.BitsPerBiome // without a palette the data holds global ids
+	if len(pat) > 0 {
+		minBits = bits.Len(uint(len(pat) - 1)) // saved data always indexes the saved palette
+	}
+	n = narrowBitsPerValue(n, length, len(data), minBits)
 	switch n {
 	case 0:
 		p = &singleValuePalette[BiomesState]{pat[0]}
@@ -87,6 +103,11 @@ func NewBiomesPaletteContainerWithData(length int, data []uint64, pat []BiomesSt
 			bits:   n,
 		}
 	default:
+		if len(pat) > 0 {
+			// more biomes than the largest in-memory palette: resolve the indices to global ids
+			data = resolvePaletteIndices(n, biome.BitsPerBiome, length, data, pat)
+		}
+		n = biome.BitsPerBiome
 		p = &globalPalette[BiomesState]{}
 	}
 	return &PaletteContainer[BiomesState]{
@@ -95,6 +116,18 @@ func NewBiomesPaletteContainerWithData(length int, data []uint64, pat []BiomesSt
 		palette: p,
 		data:    NewBitStorage(n, length, data),
 	}
+}
+
+// resolvePaletteIndices rewrites data that indexes pat (srcBits wide) into global ids (dstBits wide).
+func resolvePaletteIndices[T State](srcBits, dstBits, length int, data []uint64, pat []T) []uint64 {
+	src := NewBitStorage(srcBits, length, data)
+	dst := NewBitStorage(dstBits, length, nil)
+	for i := 0; i < length; i++ {
+		if idx := src.Get(i); idx < len(pat) {
+			dst.Set(i, int(pat[idx]))
+		}
+	}
+	return dst.Raw()
 }
 
 func (p *PaletteContainer[T]) Get(i int) T {
